@@ -160,7 +160,14 @@ def equality_test(actual, expected, _exact_strings, _delta):
         if not _are_sets_equal(primary_keys, set(actual.keys()), _exact_strings, _delta):
             return False
         for key in primary_keys:
-            if not equality_test(expected[key], actual[key], _exact_strings, _delta):
+            # The key sets only match up to the requested comparison (e.g., "Name" and "name"),
+            # so the partner key has to be found the same way
+            if key in actual:
+                partner = key
+            else:
+                partner = next(other for other in actual
+                               if equality_test(key, other, _exact_strings, _delta))
+            if not equality_test(expected[key], actual[partner], _exact_strings, _delta):
                 return False
         return True
     # Two dataclasses
